@@ -33,6 +33,7 @@ type Cfg struct {
 	MapOrder     string `json:"map_order,omitempty"` // "" | "rot" | "perm"
 	NoCallbacks  bool   `json:"no_callbacks,omitempty"`
 	LogLocks     bool   `json:"log_locks,omitempty"`
+	MetricPoints bool   `json:"metric_points,omitempty"` // with Metrics: every atomic operation (the striped counters too) is a schedule point
 }
 
 // Op is one operation of a scenario thread.
@@ -349,9 +350,21 @@ func newCache(cfg Cfg, s *Scenario) cacheAPI {
 			}
 		}
 	}
+	// Clock reads are schedule points when the clock can move while threads run: always under
+	// the sequential driver (clock advances are events of the history), in DFS scenarios only
+	// when a thread (not the frozen set-up) advances it.
+	hasAdv := s == nil
+	if s != nil {
+		for _, th := range s.Threads {
+			for _, o := range th {
+				hasAdv = hasAdv || strings.HasPrefix(o.K, "advance")
+			}
+		}
+	}
+	vsched.SetClockPoints(hasAdv)
 	closed, maxc := c.Cells()
 	set := map[uintptr]struct{}{}
-	if c.Metrics() == nil {
+	if c.Metrics() == nil || cfg.MetricPoints {
 		if !hasClose {
 			set[uintptr(closed)] = struct{}{}
 		}
@@ -437,6 +450,7 @@ func runOp(c cacheAPI, o Op) {
 		if m := c.Metrics(); m != nil {
 			vsched.Log(evMetrics, int64(m.Hits()), int64(m.Misses()), int64(m.KeysAdded()))
 			_ = m.String()
+			_ = m.LifeExpectancySeconds() // the histogram of evicted items' life times (guarded by Metrics.mu)
 		} else {
 			vsched.Log(evMetrics, -1, -1, -1)
 		}
